@@ -194,9 +194,13 @@ func (e *Engine) Solve(rep *FuncReport, scratch string) {
 func (e *Engine) solveOne(rep *FuncReport, ob *Obligation, base string) {
 	q := rep.queryFor(ob)
 	file := base + ".smt2"
-	os.WriteFile(file, []byte(smtHeader+q+"(check-sat)\n(get-model)\n"), 0o644)
+	gv := "(get-model)\n"
+	if ts := rep.valueTerms(); ts != "" {
+		gv = "(get-value (" + ts + "))\n"
+	}
+	os.WriteFile(file, []byte(smtHeader+q+"(check-sat)\n"+gv), 0o644)
 	zfile := base + ".z3.smt2"
-	os.WriteFile(zfile, []byte(smtHeader+z3Header+q+"(check-sat)\n(get-model)\n"), 0o644)
+	os.WriteFile(zfile, []byte(smtHeader+z3Header+q+"(check-sat)\n"+gv), 0o644)
 	ctx, cancel := context.WithCancel(context.Background())
 	defer cancel()
 	ch := make(chan solveResult, len(solvers))
@@ -262,3 +266,15 @@ func (e *Engine) solveOne(rep *FuncReport, ob *Obligation, base string) {
 		}
 	}
 }
+
+func (rep *FuncReport) valueTerms() string {
+	var ts []string
+	for _, p := range rep.Params {
+		if p.Term != "" {
+			ts = append(ts, p.Term)
+		}
+	}
+	return strings.Join(ts, " ")
+}
+
+func contextBackground() context.Context { return context.Background() }
